@@ -7,6 +7,7 @@ package checks
 
 import (
 	"fmt"
+	"strings"
 
 	"verif/internal/dbgen"
 	"verif/internal/ev"
@@ -197,13 +198,18 @@ func c12One(r *ev.Run, im *c12Image, op Op, warm bool) {
 			p := Safely(func() { res = op.Run(ee, 0) })
 			judge(res, art, fmt.Sprintf("%s at page read %d of %d", kindS, k, reads), ff.Hit, p)
 			after := ff.N
-			if warm && (res.Err != nil || p != nil) {
-				// the warm handle must still work afterwards (and must not have cached garbage)
+			if res.Err != nil || p != nil {
+				// the same handle must still work afterwards (and must not have cached garbage or a truncated listing)
 				ff.Arm(0, vpager.FaultNone)
 				again := op.Run(ee, 0)
 				r.Trans(1)
-				if again.Err != nil || !RowsEq(again.Rows, base.Rows, false) {
-					r.Violation("C12:after-fault-differs:"+opKind(op.Name), fmt.Sprintf("%s: after a reported %s at read %d the same handle returns err=%v, %d rows (fault-free: %d)", op.Name, kindS, k, again.Err, len(again.Rows), len(base.Rows)), art)
+				// a handle that keeps reporting the error is within the property; what must not happen is
+				// success with a different result (or "no such table" for a table that exists: a silently
+				// truncated listing is rows omitted one level up)
+				if again.Err == nil && !RowsEq(again.Rows, base.Rows, false) {
+					r.Violation("C12:after-fault-differs:"+opKind(op.Name), fmt.Sprintf("%s: after a reported %s at read %d the same handle succeeds with %d rows (fault-free: %d)", op.Name, kindS, k, len(again.Rows), len(base.Rows)), art)
+				} else if again.Err != nil && (strings.Contains(again.Err.Error(), "no such table") || strings.Contains(again.Err.Error(), "no such index")) {
+					r.Violation("C12:after-fault-object-lost:"+opKind(op.Name), fmt.Sprintf("%s: after a reported %s at read %d the same handle claims: %v", op.Name, kindS, k, again.Err), art)
 				}
 			}
 			// second deviation: only where the operation kept reading after the first
